@@ -1154,7 +1154,7 @@ def gen_scan_case(rng, stream='valid', api=None, kind='scan'):
     ys_axes.append(0)
   if wild and ys_e and rng.random() < 0.15:
     ys_axes[rng.randrange(len(ys_axes))] = None
-  uniform_out = len(ys_axes) > 0 and len(set(ys_axes)) == 1 and ys_axes[0] is not None and rng.random() < 0.6
+  uniform_out = len(ys_axes) > 0 and len(set(ys_axes)) == 1 and ys_axes[0] is not None and rng.random() < (0.85 if common_axis is not None else 0.6)
   cfg['out_axes'] = ys_axes[0] if uniform_out else (list(ys_axes) if ys_axes else 0)
   prog = {'shape': shape, 'stmts': stmts, 'carry': carry_e, 'ys': ys_e}
   # --- length ----------------------------------------------------------------------------------
